@@ -345,8 +345,9 @@ class Content:
     tracklib): registered nodes with their positions (the FIRST registration of an id wins), the edges with their current
     attributes, their polylines. `version` counts the modifications."""
 
-    def __init__(self, case):
+    def __init__(self, case, frozen_ori=False):
         calls = build_calls(case)
+        self.frozen_ori = frozen_ori          # keep the orientations the edges were added with (see P.classify)
         self.n = case["n"]
         self.pos, self.order, self.edges, self.lines = {}, [], [], {}
         self.version = 0
@@ -398,7 +399,8 @@ class Content:
             if k == "W":
                 e[3] = op[2]
             elif k == "O":
-                e[4] = op[2]
+                if not self.frozen_ori:
+                    e[4] = op[2]
                 self.ori_set.add(op[1])
             else:
                 self.lines[op[1]] = [list(q) for q in op[2]]
@@ -415,7 +417,7 @@ class Content:
     def frozen(self):
         """a copy that later modifications do not touch"""
         c = Content.__new__(Content)
-        c.n, c.version, c._d = self.n, self.version, self._d
+        c.n, c.version, c._d, c.frozen_ori = self.n, self.version, self._d, self.frozen_ori
         c.pos = {v: list(q) for v, q in self.pos.items()}
         c.order = list(self.order)
         c.edges = [list(e) for e in self.edges]
@@ -429,12 +431,12 @@ class Content:
         return len(l) > 0 and l[0] == self.pos[e[1]] and l[-1] == self.pos[e[2]]
 
 
-def timeline(case):
+def timeline(case, frozen_ori=False):
     """per op: (the content the op finds, stale) — stale: the network was modified since the last search (what
     run_routing_backward then returns mixes the old flags with the new content: nothing is stated about it).
     Cases that do not modify the network share one Content."""
     ops = ops_of(case)
-    c = Content(case)
+    c = Content(case, frozen_ori)
     if not case.get("mut"):
         return [(c, False)] * len(ops)
     out, stale, cur = [], False, c.frozen()
@@ -619,7 +621,10 @@ class P(Prop):
     ]
     partial = []
     open_statements = ["Track.copy is modelled as the identity on (points, feature table): that the returned track shares no Obs / coordinate object with the network is not a theorem; the harness checks it by moving the points of every returned track (scribble stream) and validating the later answers of the session",
-                       "float rounding of sums of non-dyadic weights is outside the theorems (weights: a linearly ordered additive commutative monoid; the correspondence streams use integers and dyadic rationals, exact in float arithmetic)"]
+                       "arithmetic: every theorem holds for any addition satisfying WalkAdd (x <= x + w for w >= 0, and + monotone on the right; associativity, commutativity and cancellation are not used, see the R4 example), i.e. for the sums as the code rounds them; that IEEE-754 double addition satisfies WalkAdd is not proved in Lean (Float is opaque) — the float streams run the model at Float bit for bit",
+                       "run_routing_backward on flags older than the last modification of the network (old antecedents, new weights / polylines): nothing is stated and nothing is proved beyond termination of the model's loop; the harness compares with the model only",
+                       "modifications through Network.simplify / toENUCoords / toGeoCoords (they replace every edge geometry / node coordinate) and routing on a sub_network (a second Network sharing the Node and Edge objects) are not in the model; the library has no call that removes an edge or a node",
+                       "getEdge(i).orientation = x on a built network: proved NOT to be read by routing (orientation_attribute_not_read) — the property read with the current attribute fails there; proposed finding %s (findings/C07.json), its inputs are generated once it is listed" % ORI_FROZEN]
     modelled = ("Network.addNode / addEdge (NODES with first registration winning, EDGES, NEXT_EDGES filled incrementally; proved to give the model's adjacency); "
                 "Network.run_routing_forward (as for C06) with __correctInputNode (node by id / Node object) and __resetFlags on the flags left by earlier searches; "
                 "run_routing_backward (walk of antecedent / antecedent_edge, polyline reversed when e.source != node, appended minus its first vertex, final reverse, "
@@ -1203,7 +1208,7 @@ class P(Prop):
             want = [[e[0], e[1], e[2], e[4], True] for e in nc.expand(case)]
             if nx["ends"] != want:
                 return "network as built: edges (id, source, target, orientation, ends are the registered nodes) %s, given %s" % (nx["ends"], want)
-        tl = timeline(case)
+        tl = timeline(case, frozen_ori=True)      # model and implementation both route by NEXT_EDGES as addEdge filled it
         view = [None]
 
         def dist():
@@ -1384,7 +1389,19 @@ class P(Prop):
             return "%s returns %s" % (what, x)
         return None
 
-    def spec(self, case, out):
+    def classify(self, case, impl_out, msg):
+        """ORI_FROZEN: the case assigns the orientation attribute of an edge of the built network, and the oracle has nothing
+        to object once it reads every such edge with the orientation it was ADDED with (NEXT_EDGES is filled by addEdge and
+        never refreshed: `orientation_attribute_not_read`)."""
+        if isinstance(case, dict) and case.get("mut") and any(o[0] == "O" for o in ops_of(case)):
+            try:
+                if self.spec(case, impl_out, frozen_ori=True) is None:
+                    return ORI_FROZEN
+            except Exception:
+                return None
+        return None
+
+    def spec(self, case, out, frozen_ori=False):
         if "err" in out:
             if out["err"] == "err:Skipped":
                 return None     # not evaluated (see netcommon.time_limit); the cases that timed out are the failures
@@ -1393,7 +1410,7 @@ class P(Prop):
         ops = ops_of(case)
         if len(out["ops"]) != len(ops):
             return "%d results for %d calls" % (len(out["ops"]), len(ops))
-        tl = timeline(case)
+        tl = timeline(case, frozen_ori)
         last = None
         for k, (op, o) in enumerate(zip(ops, out["ops"])):
             pre = "call %d: " % k if ("ops" in case or case.get("seq")) else ""
